@@ -587,12 +587,30 @@ def run(ctx):
     ctx.exhaustive = False
 
 
+def model_says(lines):
+    """run the compiled Lean model on protocol lines (best effort: the driver may not be built)"""
+    import os
+    import subprocess
+
+    from common import BIN
+
+    exe = os.path.join(BIN, "drv_c14")
+    if not os.path.exists(exe):
+        print("model: driver not built")
+        return
+    out = subprocess.run([exe], input="\n".join(lines) + "\n", capture_output=True, text=True).stdout.split("\n")
+    for l, o in zip(lines, out):
+        print(f"model          {l} -> {o}")
+
+
 def replay(obj):
     logging.disable(logging.CRITICAL)
     M = _mbxml()
     f = obj.get("failure") or {}
     inp = f.get("input", {})
     print(json.dumps(obj.get("type")), f.get("what"))
+    for d in (obj.get("correspondence_differences") or [])[:5]:
+        print("correspondence difference:", d)
     op = inp.get("op")
     still = 1
     if op == "uintvar":
@@ -601,12 +619,14 @@ def replay(obj):
         pre, tr = bytes.fromhex(inp.get("prefix", "")), bytes.fromhex(inp.get("trail", ""))
         r = call(M.read_uintvar, pre + w, len(pre)) if isinstance(w, str) else call(M.read_uintvar, pre + w + tr, len(pre))
         print(f"implementation write_uintvar({v}) = {hx(w)}; read back {r}; canonical: {None if isinstance(w, str) else canon_u(w, v)}")
+        model_says([f"uv.write {v}"] + ([] if isinstance(w, str) else [f"uv.read {hx(pre + w + tr)} {len(pre)}"]))
         still = 0 if (not isinstance(w, str) and canon_u(w, v) is None and r == (v, len(pre) + len(w))) else 1
     elif op == "sintvar":
         v = inp["value"]
         w = call(M.write_sintvar, v)
         r = w if isinstance(w, str) else call(M.read_sintvar, w, 0)
         print(f"implementation write_sintvar({v}) = {hx(w)}; read back {r}")
+        model_says([f"sv.write {v} 0"] + ([] if isinstance(w, str) else [f"sv.read {hx(w)} 0"]))
         still = 0 if (not isinstance(w, str) and canon_s(w, v, v < 0) is None and r == (v, len(w), -1 if v < 0 else 1)) else 1
         if "other" in inp:
             o = call(M.write_sintvar, inp["other"])
@@ -627,6 +647,9 @@ def replay(obj):
         w = call(M.write_sfloatvar if signed else M.write_ufloatvar, value, p)
         r = w if isinstance(w, str) else call(M.read_sfloatvar if signed else M.read_ufloatvar, w, 0)
         print(f"implementation write_{op}({value!r}, {p}) = {hx(w)}; read back {r}")
+        neg, num, exp = dyadic(value)
+        model_says([f"sf.write {1 if neg else 0} {num} {exp} {p}" if signed else f"uf.write {num} {exp} {p}"]
+                   + ([] if isinstance(w, str) else [f"{'sf' if signed else 'uf'}.read {hx(w)} 0"]))
         still = 0 if (not isinstance(r, str) and r[0] == value and r[1] == len(w)) else 1
     elif op in ("lat", "lon"):
         m = inp["microdegrees"]
@@ -638,6 +661,7 @@ def replay(obj):
             la, lo = xml_latlon(b, bytes(4)) if op == "lat" else xml_latlon(bytes(4), b)
             text = la if op == "lat" else lo
             print(f"implementation write_{op}({x!r}) = {b.hex()}; XML view shows {text}")
+            model_says([f"{op}.write {m}", f"{op}.decode {b.hex()}"])
             still = 0 if text == str(x) else 1
     elif op == "infotime":
         s = inp["value"]
@@ -645,6 +669,7 @@ def replay(obj):
         x = b if isinstance(b, str) else call(xml_of, "info-time", b)
         mm = re.search(r"<info-time>([^<]*)</info-time>", x)
         print(f"implementation write_infotime({s}) = {hx(b)}; XML view shows {mm.group(1) if mm else x!r}")
+        model_says([f"it.write {s}"] + ([] if isinstance(b, str) else [f"it.decode {b.hex()}"]))
         still = 0 if (mm and mm.group(1) == s) else 1
     print("expected:", f.get("expected"), "actual:", f.get("actual"))
     return still
